@@ -40,6 +40,7 @@ def run(chk):
     )
     chk.not_decided = "conservation of bytes as an equation over all operation sequences; that the low-water test is true whenever the buffer is empty (arithmetic on configured limits)."
     chk.explanation += " Also decided: every function that inspects the front buffer also reads its consumed-prefix offset. After the defect hunt: interrupted line/exact reads push their bytes back; multi-byte separators are searched across block boundaries; the last chunk boundary is kept by the producer; an empty buffer always satisfies the resume test; the shared EMPTY_PAYLOAD keeps no state (known finding F63)."
+    chk.explanation += " Round 4 / second hunt: every accumulating read loop pushes its bytes back when interrupted; the body-less stream answers the whole consumer API; iter_chunks() stops only on the end-of-stream value."
     sr = repo.cls(MOD, SR)
     # ---- owners ---------------------------------------------------------------------------------------
     for attr, fns in OWN.items():
